@@ -210,7 +210,8 @@ class Flow:
 
 # ----------------------------------------------------------------------------------------------- the analysis
 class Analysis:
-    def __init__(self, index, types, conds, raising=(), summaries=None, rec=None):
+    def __init__(self, index, types, conds, raising=(), summaries=None, rec=None, model_raises=False):
+        self.model_raises = model_raises   # True: `raise` statements (refused arguments) are exits whose states are collected
         self.rec = rec or {}          # function name -> conditions that hold in its recursive activation
         self.overlays = []
         self.pending = []             # exceptional states of calls that may also return
@@ -588,8 +589,10 @@ class Analysis:
             v = self.ev(st, s.value) if s.value is not None else frozenset([FRESH])
             return Flow(None, [(v, st)])
         if isinstance(s, ast.Raise):
-            # exceptions other than the one configured for the shape (a constructor that raises) are not modelled:
-            # the path ends here
+            # exceptions other than the one configured for the shape (a constructor that raises): in the main analysis the
+            # path ends here; in the refusal analysis (model_raises) the state at the raise is an exceptional exit
+            if self.model_raises:
+                return Flow(None, [], [st])
             return Flow(None, [], [])
         if isinstance(s, ast.If):
             self.ev(st, s.test)
@@ -721,10 +724,10 @@ def _same(a, b):
     return True
 
 
-def run(index, cls, meth, types, conds, argroles, raising=(), summaries=None, rec=None, want_reads=False):
+def run(index, cls, meth, types, conds, argroles, raising=(), summaries=None, rec=None, want_reads=False, refusals=False):
     """analyses cls.meth with self = root 'self' and the arguments named in argroles bound to roots; other arguments fresh.
     Returns (written, last) over (root, path)."""
-    an = Analysis(index, types, conds, raising, summaries, rec)
+    an = Analysis(index, types, conds, raising, summaries, rec, model_raises=refusals)
     c, fn = index.method(cls, meth)
     if fn is None:
         raise Untranslatable("%s.%s not found" % (cls, meth))
@@ -736,6 +739,11 @@ def run(index, cls, meth, types, conds, argroles, raising=(), summaries=None, re
     an.stack.append((index.where[c], c, fn.name, {}, set()))
     flow = an.block(st, fn.body)
     out = None
+    if refusals:
+        # the join of the states in which a `raise` statement is reached (None: no refusal on this shape's paths)
+        for s in flow.excs:
+            out = sjoin(out, s)
+        return (set(), {}) if out is None else (out.written, out.last)
     if raising:
         for s in flow.excs:
             out = sjoin(out, s)
@@ -894,8 +902,13 @@ def cutoff_summaries(index):
         raise Untranslatable("subtract_cutoff_coupling writes %s" % sorted(".".join(p) for _, p in w ^ want))
     if last[("self", ("_has_remainder_coupling",))] != frozenset(["const:True"]):
         raise Untranslatable("subtract_cutoff_coupling does not end with the remainder flag set")
+    wx, _ = run(index, "Hamiltonian", "subtract_cutoff_coupling", {("self", ()): "Hamiltonian"}, {}, set(), refusals=True)
+    if wx:
+        raise Untranslatable("subtract_cutoff_coupling refuses a cut-off after having written %s" % sorted(".".join(p) for _, p in wx))
 
     def subtract(an, st, o, args, kws):
+        if an.model_raises:
+            an.pending.append(st.copy())      # a refused cut-off: raised before anything is written (checked above)
         for attr, kind in (("_data", "sub"), ("JR", "any"), ("_has_remainder_coupling", "const:True")):
             key = (o[1], o[2] + (attr,))
             st.written.add(key)
@@ -974,6 +987,10 @@ Import ListNotations.
 %(recover)s
 Definition gen_code : list (shape * list field * list (field * list wkind)) :=
   [ %(items)s ].
+(* refused calls: the fields written, and the kinds of their last writes, in the states in which a `raise` statement of the
+   call's own code (a refused argument: an unknown theory, an unusable cut-off, a wrong type) is reached *)
+Definition gen_refusals : list (shape * list (field * list wkind)) :=
+  [ %(refusals)s ].
 (* fields read while the call has not yet rebound them: the values the call finds on the shared objects *)
 Definition gen_reads : list (shape * list field) :=
   [ %(reads)s ].
@@ -996,6 +1013,10 @@ Qed.
    dephasing factors, caches, flags) is never read before the call has set it itself *)
 Lemma gen_reads_inputs_only : forallb (fun x => forallb is_input (snd x)) gen_reads = true.
 Proof. vm_compute. reflexivity. Qed.
+(* a call that refuses its arguments leaves no input field changed either *)
+Lemma gen_refusals_leave_inputs :
+  forallb (fun x => forallb (fun fk => negb (existsb (may_change (fst fk)) (snd fk)) || negb (is_input (fst fk))) (snd x)) gen_refusals = true.
+Proof. vm_compute. reflexivity. Qed.
 (* the shapes analysed are all the calls the theorems quantify over *)
 Lemma gen_all_shapes : forallb (fun s => existsb (fun x => shape_eqb s (fst (fst x))) gen_code) api_shapes = true.
 Proof. vm_compute. reflexivity. Qed.
@@ -1008,8 +1029,18 @@ Proof. vm_compute. reflexivity. Qed.
 def static(repo):
     index = Index(repo)
     summaries, recover_text = cutoff_summaries(index)
-    items, reads, what, notes = [], [], [], set()
+    items, reads, what, notes, refusals = [], [], [], set(), []
     for sh in all_shapes():
+        if not sh.get("raising"):
+            wx, lastx = run(index, sh["cls"], sh["meth"], sh["types"], sh["conds"], sh["args"], (), summaries, sh.get("rec"), refusals=True)
+            kx = {}
+            for key in sorted(wx):
+                f = field_of_loc(sh, key)
+                kx.setdefault(f, [])
+                for k in sorted(lastx.get(key, frozenset(["none"]))):
+                    if coq_kind(k) not in kx[f]:
+                        kx[f].append(coq_kind(k))
+            refusals.append("(%s, [%s])" % (sh["coq"], "; ".join("(%s, [%s])" % (f, "; ".join(v)) for f, v in kx.items())))
         w, last, nt, exposed = run(index, sh["cls"], sh["meth"], sh["types"], sh["conds"], sh["args"], sh.get("raising", ()), summaries, sh.get("rec"),
                                    want_reads=True)
         notes |= nt
@@ -1041,7 +1072,7 @@ def static(repo):
             "_one_step_with_dense_TimeIndep, _calculate_remainig_using_first_interval"]
     note_text = "\n".join("     %s: %s" % (k, WHITELIST[k]) for k in sorted(notes | {"external_field_branches"}))
     return C15_FILE % {"notes": note_text, "recover": recover_text, "items": ";\n    ".join(items),
-                       "reads": ";\n    ".join(reads)}, what
+                       "reads": ";\n    ".join(reads), "refusals": ";\n    ".join(refusals)}, what
 
 
 if __name__ == "__main__":
